@@ -13,6 +13,8 @@ CLAIMED = {
 }
 CLAIMED["C13"] = ("other", "Return-pair typestate of Compile on every path, single-query typestate, arity ranges at the first emission of every built-in writer compared with the documented table, error discipline of every emitting call, let-mode and join-alias gates as must-facts at the identifier emission, row-count and join-kind validation in the parser. 'Every rule-abiding program compiles' quantifies over programs and is not decided.", "DESIGN.md §3 C13",
          "path facts (AST abstract interpreter) at return/emission sites + table agreement")
+CLAIMED["C16"] = ("other", "Sibling/must-check rules on cmd/pql run and main with path facts: every Compile call gets the let prelude, read errors are consulted and returned, the failure flag is sticky, the prelude grows only on validated statements, output format, exit status. Byte-exact stdout over all scripts is a runtime quantity and is not decided.", "DESIGN.md §3 C16",
+         "path facts (AST abstract interpreter) at call/return sites of cmd/pql")
 NA = {}
 def main():
     props = [json.loads(l) for l in open('/verif/properties.jsonl')]
